@@ -15,6 +15,7 @@ validation sees R as float, SI/BV as int, C as complex.
 from __future__ import annotations
 import builtins
 import math
+import os
 import time
 from fractions import Fraction as Fr
 
@@ -178,6 +179,18 @@ def have_ctx():
 FEAS_TIMEOUT_MS = 4000
 
 
+# a single non-linear query can otherwise take every byte of the machine (a 62 GB host was exhausted by one worker): past the
+# cap z3 gives up on the query, which is reported as `unknown` like a timeout
+z3.set_param('memory_max_size', int(os.environ.get('VERIF_Z3_MEM_MB', '3500')))
+
+
+def safe_check(s):
+    try:
+        return str(s.check())
+    except z3.Z3Exception:
+        return 'unknown'
+
+
 def _check(facts, extra, timeout_ms):
     c = ctx()
     s = z3.Solver()
@@ -187,7 +200,7 @@ def _check(facts, extra, timeout_ms):
     for f in extra:
         s.add(f)
     t0 = time.time()
-    r = s.check()
+    r = safe_check(s)
     c.solver_time += time.time() - t0
     c.queries += 1
     return str(r), s
